@@ -299,6 +299,8 @@ void janet_async_start_fiber(JanetFiber *fiber, JanetStream *stream, JanetAsyncM
     if (((mode & JANET_ASYNC_LISTEN_READ) && stream->read_fiber && stream->read_fiber != fiber) ||
             ((mode & JANET_ASYNC_LISTEN_WRITE) && stream->write_fiber && stream->write_fiber != fiber)) {
         janet_free(state);
+        /* Invalidate a timeout the caller may already have armed for this operation */
+        fiber->sched_id++;
         janet_panic("stream already has a pending operation in this direction from another fiber");
     }
     if (mode & JANET_ASYNC_LISTEN_READ) {
